@@ -20,3 +20,10 @@ Example C35_nonvacuous_pow_instances :
   denote (rho_const (-3 # 1, 0)) (EPow (EPow sx (ENum (NInt 2))) (ENum (NRat 1 2))) = Some (VC (3, 0)) /\
   denote (rho_const (-2 # 1, 0)) (EPow (EPow sx (ENum (NInt 2))) (ENum (NRat 3 2))) = Some (VC (8, 0)).
 Proof. exact pow_rule_abs_even_instances. Qed.
+(* the repaired Pow rule: an odd inner exponent is kept, an even one rewritten *)
+Example C35_nonvacuous_pow_rule : exists st A rho,
+  assum_of st = Ok A /\ osat rho st /\
+  refine_pow A (EPow sx (ENum (NInt 3))) (ENum (NRat 1 2)) = DKeep /\
+  refine_pow A (EPow sx (ENum (NInt 2))) (ENum (NRat 1 2)) = DAbs /\
+  denote rho e_sqrt_x3 = Some (VC (0, 1)) /\ denote rho e_abs_x_32 = Some (VC (1, 0)).
+Proof. exact pow_rule_odd_inner_exponent_kept. Qed.
